@@ -458,7 +458,7 @@ def plan(tier):
         deep = [("A", "unified", CONTENTS_FULL, 3, 1), ("A", "unified", CONTENTS_QUICK, 2, 2),
                 ("A", "combined", CONTENTS_QUICK[:3], 3, 1),
                 ("A", "diffu", CONTENTS_QUICK + [b"-- y"], 3, 1),
-                ("A", "conflict", [b"x", b""], 1, 1),
+                ("A", "conflict", [b"x", b""], 2, 1),
                 ("B", 2, ["modified", "mode", "rename_change"], None, "diffu")]
     else:
         specs = [("A", "unified", CONTENTS_QUICK, 4, 1),
@@ -466,7 +466,7 @@ def plan(tier):
         deep = [("A", "unified", CONTENTS_FULL, 4, 1), ("A", "unified", CONTENTS_QUICK, 3, 2),
                 ("A", "combined", CONTENTS_QUICK, 3, 1),
                 ("A", "diffu", CONTENTS_FULL, 3, 1),
-                ("A", "conflict", [b"x", b"", b"\tt", b"\xc3\xa9\xe6\xbc\xa2"], 2, 1),
+                ("A", "conflict", [b"x", b"", b"\tt", b"\xc3\xa9\xe6\xbc\xa2"], 3, 1),
                 ("B", 3, None, ["ctx", "minus", "minusplus"], "git"),
                 ("B", 2, ["modified"], None, "diffu")]
     for label, ov, k in configs:
